@@ -788,6 +788,8 @@ func (e *Engine) run(fn *ssa.Function, entry *State, args []AbsVal) []exitState 
 		for _, rv := range x.ret {
 			if c, ok := rv.constInt(); ok {
 				fmt.Fprintf(&sb, "%d%s,", c, rv.emsg)
+			} else if rv.k == vStrSet && len(rv.strs) == 1 {
+				fmt.Fprintf(&sb, "%q,", rv.strs[0]) // a message returned next to the token type
 			} else {
 				sb.WriteString("?,")
 			}
@@ -2016,6 +2018,23 @@ func shiftMark(m AbsVal, k int) AbsVal {
 func opString(op token.Token) string { return op.String() }
 
 func (e *Engine) cmp(st *State, a, b AbsVal, op token.Token, xv, yv ssa.Value) AbsVal {
+	// constant strings (an error message handed around: msg != "")
+	if a.k == vStrSet && b.k == vStrSet && (op == token.EQL || op == token.NEQ) {
+		anyEq, anyNe := false, false
+		for _, x := range a.strs {
+			for _, y := range b.strs {
+				if x == y {
+					anyEq = true
+				} else {
+					anyNe = true
+				}
+			}
+		}
+		if anyEq != anyNe {
+			return boolVal(anyEq == (op == token.EQL))
+		}
+		return top
+	}
 	kb, bConst := b.constInt()
 	if ka, ok := a.constInt(); ok && bConst {
 		return boolVal(cmpInts(ka, op, kb))
